@@ -53,6 +53,15 @@ func abstractions(v cty.Value) []abstraction {
 			func(c cty.Value) bool {
 				return !c.IsNull() && c.GreaterThanOrEqualTo(lo).True() && c.LessThanOrEqualTo(hi).True()
 			}})
+		// exclusive bounds that coincide with neighbouring scope values (n1 = 1, n2 = 2, ...)
+		out = append(out, abstraction{"bounds-exclusive", cty.UnknownVal(t).Refine().NotNull().NumberRangeLowerBound(lo, false).NumberRangeUpperBound(hi, false).NewValue(),
+			func(c cty.Value) bool {
+				return !c.IsNull() && c.GreaterThan(lo).True() && c.LessThan(hi).True()
+			}})
+		out = append(out, abstraction{"lower-exclusive", cty.UnknownVal(t).Refine().NotNull().NumberRangeLowerBound(lo, false).NewValue(),
+			func(c cty.Value) bool { return !c.IsNull() && c.GreaterThan(lo).True() }})
+		out = append(out, abstraction{"upper-exclusive", cty.UnknownVal(t).Refine().NotNull().NumberRangeUpperBound(hi, false).NewValue(),
+			func(c cty.Value) bool { return !c.IsNull() && c.LessThan(hi).True() }})
 	case t.IsCollectionType():
 		n := v.LengthInt()
 		out = append(out, abstraction{"length", cty.UnknownVal(t).Refine().NotNull().CollectionLengthLowerBound(n).CollectionLengthUpperBound(n + 1).NewValue(),
@@ -197,20 +206,25 @@ func Handle(c *core.Check, st core.State) {
 				sub = append(sub, x)
 			}
 		}
-		// abstraction kinds are varied on the first variable of the subset, the others use the typed unknown
-		for _, ab := range abstractions(base[sub[0]]) {
+		// the abstraction kind is varied on each variable of the subset in turn (lead), the others use the typed unknown
+		for li := range sub {
+		lead := sub[li]
+		for _, ab := range abstractions(base[lead]) {
+			if li > 0 && (ab.name == "unknown") {
+				continue // the all-typed-unknown combination was covered with the first lead
+			}
 			absScope := map[string]cty.Value{}
 			for k, val := range base {
 				absScope[k] = val
 			}
-			absScope[sub[0]] = ab.val
-			for _, x := range sub[1:] {
+			for _, x := range sub {
 				absScope[x] = cty.UnknownVal(base[x].Type())
 			}
+			absScope[lead] = ab.val
 			av, ad, pan := eval(absScope)
 			c.Count("evaluations", 1)
 			if pan != nil {
-				c.Violation("panic/"+e1.Fam(v.Node), fmt.Sprintf("%q panicked with %v abstracted (%s): %v", src, sub, ab.name, pan), vec)
+				c.Violation("panic/"+e1.Fam(v.Node), fmt.Sprintf("%q panicked with %v abstracted (%s: %s): %v", src, sub, lead, ab.name, pan), vec)
 				return
 			}
 			if ad.HasErrors() {
@@ -224,7 +238,7 @@ func Handle(c *core.Check, st core.State) {
 				var next []map[string]cty.Value
 				for _, m := range insts {
 					for ci, cv := range cands {
-						if x == sub[0] && !ab.admits(cv) {
+						if x == lead && !ab.admits(cv) {
 							continue
 						}
 						if len(sub) > 1 && ci > 2 {
@@ -280,13 +294,14 @@ func Handle(c *core.Check, st core.State) {
 					}
 					if c.Violation(sig,
 						fmt.Sprintf("%q with %v abstracted (%s=%s): abstract result %s, but with %s the concrete result is %s — %s (smallest unsound sub-expression: %q)",
-							src, sub, sub[0], e1.Describe(ab.val), e1.Describe(av), descInst(inst), e1.Describe(cv), m, e1.Render(small, e1.Layout{})), vec) {
+							src, sub, lead, e1.Describe(ab.val), e1.Describe(av), descInst(inst), e1.Describe(cv), m, e1.Render(small, e1.Layout{})), vec) {
 						continue // a listed finding: keep exploring the remaining instantiations
 					}
 					return
 				}
 				nontrivial = true
 			}
+		}
 		}
 	}
 	if nontrivial {
